@@ -36,7 +36,7 @@ TRAIT_GRIDS = {
     "inline": ["inline", "objectives"],
     "projection": ["projection"],
 }
-ALL_GRIDS = ["cleanup", "unused", "duplication", "symmetry", "minmax", "sumchains", "math", "inline", "projection", "normalize", "objectives", "robust", "domains", "vocab", "detect"]
+ALL_GRIDS = ["extra", "cleanup", "unused", "duplication", "symmetry", "minmax", "sumchains", "math", "inline", "projection", "normalize", "objectives", "robust", "domains", "vocab", "detect"]
 GRID_TRAIT = {
     "cleanup": "cleanup",
     "unused": "unused",
@@ -69,7 +69,7 @@ def grid_recs(names: list[str]) -> list[dict]:
         if n not in _POOL:
             recs = grid(n)
             for r in recs:
-                r["trait"] = GRID_TRAIT.get(n, "other")
+                r["trait"] = r.get("trait") or GRID_TRAIT.get(n, "other")
                 r["grid"] = n
             _POOL[n] = recs
         out.extend(_POOL[n])
@@ -362,8 +362,8 @@ class C05(Profile):
         rng = random.Random(f"C05:{seed}")
         th = tier == "thorough"
         n_inst = 16 if th else 7
-        norm = [r for r in corpus_recs() if r["trait"] in ("normalize", "ast")] + grid_recs(["normalize"])
-        rest = [r for r in corpus_recs() if r["trait"] not in ("normalize", "ast")] + grid_recs([g for g in ALL_GRIDS if g not in ("normalize", "detect")])
+        norm = [r for r in corpus_recs() if r["trait"] in ("normalize", "ast")] + grid_recs(["normalize"]) + [r for r in grid_recs(["extra"]) if r["trait"] == "normalize"]
+        rest = [r for r in corpus_recs() if r["trait"] not in ("normalize", "ast")] + [r for r in grid_recs([g for g in ALL_GRIDS if g not in ("normalize", "detect")]) if r["trait"] != "normalize"]
         sel = norm + (rest if th else pick(rest, 500, rng))
         out = []
         checks = ["equiv"] + (["stepwise"] if th else [])
@@ -452,19 +452,24 @@ class C07(Profile):
         n_inst = 10 if th else 5
         inventive = [r for r in corpus_recs() if r["trait"] in ("symmetry", "minmax_chains", "sum_chains", "duplication", "projection", "unused", "math", "inline", "dependency")]
         grids = grid_recs(["symmetry", "minmax", "sumchains", "duplication", "projection", "unused", "domains", "inline", "objectives"])
+        names = [r for r in grid_recs(["extra"]) if "localname" in r["tag"] or "globalname" in r["tag"]]
+        grids += [r for r in grid_recs(["extra"]) if "two-positions" in r["tag"]]
         vocab = grid_recs(["vocab"])
         robust = grid_recs(["robust"])
-        sel = inventive + (grids if th else pick(grids, 350, rng))
+        sel = inventive + names + (grids if th else pick(grids, 300, rng))
         out = []
 
         def add(rec: dict, tr: list[str], suffix: str, **extra: Any) -> None:
             inn, outp = decl_of(rec)
-            out.append(opt_case("C07", f"{rec['id']}|{'+'.join(tr)}|{suffix}", rec["program"], tr, inn, outp, SET_INOUT, ["c07", "equiv"], n_inst, seed, tag=rec.get("tag"), **extra))
+            out.append(opt_case("C07", f"{rec['id']}|{'+'.join(tr)}|{suffix}", rec["program"], tr, inn, outp, SET_INOUT, ["c07", "scope", "equiv"], n_inst, seed, tag=rec.get("tag"), **extra))
 
+        twin_ids = {r["id"] for r in (sel if th else names + pick(inventive, 60, rng) + pick(grids, 60, rng))}
         for rec in sel:
             configs = [list(TRAITS)] + ([list(DEFAULT_TRAITS), own_traits(rec)] if th else [own_traits(rec)])
             for tr in configs:
                 add(rec, tr, "plain")
+            if rec["id"] not in twin_ids:
+                continue
             tr = list(TRAITS)
             add(rec, tr, "decoy", twin="decoy")
             add(rec, tr, "vars", twin="vars")
@@ -473,12 +478,13 @@ class C07(Profile):
             if th:
                 add(rec, own_traits(rec), "decoy1", twin="decoy")
                 add(rec, own_traits(rec), "oneline1", layout="oneline")
-        for rec in vocab:
-            for tr in [list(TRAITS), list(DEFAULT_TRAITS)] + ([own_traits(rec)] if rec.get("trait") in TRAITS else []):
+        for vi, rec in enumerate(vocab if th else pick(vocab, 220, rng)):
+            for tr in [list(TRAITS)] + ([list(DEFAULT_TRAITS)] if th else []) + ([own_traits(rec)] if rec.get("trait") in TRAITS else []):
                 add(rec, tr, "plain")
-            add(rec, list(TRAITS), "oneline", layout="oneline")
-            add(rec, list(TRAITS), "loc", layout="loc")
-        for rec in (robust if th else pick(robust, 150, rng)):
+            if th or vi % 3 == 0:
+                add(rec, list(TRAITS), "oneline", layout="oneline")
+                add(rec, list(TRAITS), "loc", layout="loc")
+        for rec in (robust if th else pick(robust, 120, rng)):
             add(rec, list(DEFAULT_TRAITS), "plain")
         for rec, desc, text in mutants_of(inventive + vocab, 3000 if th else 200, rng):
             inn = cases.explicit_in(text, rec.get("in"))
@@ -700,6 +706,15 @@ cnt(N) :- N = #count { X : in(X) }.
 :~ cnt(N). [-N@2]
 #show in/1.
 """,
+    # a predicate that is declared as input at one arity and derived at the same arity (closed-world reasoning must stay off)
+    """
+p(X) :- q(X), X > 3.
+r(X) :- p(X), q(X).
+s(X,Y) :- p(X,Y), q(X).
+t(X) :- p(X,_).
+#show r/1.
+#show s/2.
+""",
 ]
 
 
@@ -766,10 +781,10 @@ class C19(Profile):
         for si, sub in enumerate(chosen):
             names = list(sub)
             rng.shuffle(names)
-            add(si % len(CLI_PROGRAMS), names, None, None, note="subset")
+            add(si % 6, names, None, None, note="subset")
             if th and si % 4 == 0:
-                add((si + 1) % len(CLI_PROGRAMS), names, "auto", "auto", note="subset-auto")
-        for pi in range(len(CLI_PROGRAMS)):
+                add((si + 1) % 6, names, "auto", "auto", note="subset-auto")
+        for pi in range(6):
             add(pi, None, None, None, note="defaults")
             add(pi, ["all"], None, None, note="all")
             add(pi, ["default"], None, None, note="default")
@@ -796,8 +811,14 @@ class C19(Profile):
         add(3, None, "d/1,e/2,f/1,h/1,w/2", "res/1", exp_in=[["d", 1], ["e", 2], ["f", 1], ["h", 1], ["w", 2]], exp_out=[["res", 1]], note="lists")
         add(5, None, "edge/2", "in/1", exp_in=[["edge", 2]], exp_out=[["in", 1]], note="lists")
         add(4, None, "auto", "final/1", exp_in="auto", exp_out=[["final", 1]], note="auto-in")
+        add(0, None, "dom/1,b/2,b/1", "a/2", exp_in=[["dom", 1], ["b", 2], ["b", 1]], exp_out=[["a", 2]], note="same-name-two-arities-in")
+        add(0, None, "dom/1", "a/2,a/1,b/2", exp_in=[["dom", 1]], exp_out=[["a", 2], ["a", 1], ["b", 2]], note="same-name-two-arities-out")
+        add(6, None, "q/1,p/1,p/2", "r/1,s/2", exp_in=[["q", 1], ["p", 1], ["p", 2]], exp_out=[["r", 1], ["s", 2]], note="input-also-derived-two-arities")
+        add(6, None, "q/1,p/2,p/1", "r/1,s/2", exp_in=[["q", 1], ["p", 2], ["p", 1]], exp_out=[["r", 1], ["s", 2]], note="input-also-derived-two-arities-rev")
+        add(6, None, "q/1,p/2", "r/1,s/2", exp_in=[["q", 1], ["p", 2]], exp_out=[["r", 1], ["s", 2]], note="input-one-arity")
+        add(6, None, "q/1, q/1 ,p/1", "r/1", exp_in=[["q", 1], ["q", 1], ["p", 1]], exp_out=[["r", 1]], note="duplicate-entry")
         for lvl in ("error", "warning", "info", "debug", "DEBUG", "Info"):
-            add(rng.randrange(len(CLI_PROGRAMS)), None, None, None, log=lvl, note=f"log-{lvl}")
+            add(rng.randrange(6), None, None, None, log=lvl, note=f"log-{lvl}")
             add(1, ["all"], "auto", "auto", log=lvl, note=f"log-{lvl}-all")
         # invalid combinations
         add(0, ["none", "math"], None, None, valid=False, note="none+x")
